@@ -130,6 +130,8 @@ impl Buf for LyingBuf {
             2 => dst.len(),
             3 => filled.saturating_sub(1),
             4 => (filled + 1).min(dst.len()),
+            5 => dst.len() + 3, // a safe impl may return any number
+            6 => usize::MAX,
             _ => filled,
         }
     }
@@ -311,6 +313,7 @@ fn run_once(c: &FCase) -> FOut {
     }
     let fixed_ptr = unsafe { arena.as_mut_ptr().add(G) };
     let mut sibling_check: Option<BytesMut> = None;
+    let range_viol = Cell::new(false);
     let consumer = c.consumer as usize % CONSUMERS.len();
     let (r, _) = call(|| {
         let fixed: &mut [u8] = unsafe { std::slice::from_raw_parts_mut(fixed_ptr, 32) };
@@ -433,7 +436,16 @@ fn run_once(c: &FCase) -> FOut {
             }
             31 => {
                 let owner = LyingAsRef { a: vec![7u8; n + 4], b: vec![9u8; n / 2 + 1], script: script.clone(), log: log.clone() };
+                let ra = (owner.a.as_ptr() as usize, owner.a.len());
+                let rb = (owner.b.as_ptr() as usize, owner.b.len());
                 let b = Bytes::from_owner(owner);
+                // the view must lie inside one of the slices the owner ever handed out
+                let (p, l) = (b.as_ptr() as usize, b.len());
+                let inside = |r: (usize, usize)| p >= r.0 && p + l <= r.0 + r.1;
+                if l > 0 && !inside(ra) && !inside(rb) {
+                    range_viol.set(true);
+                    return;
+                }
                 let c2 = b.clone();
                 let s = b.slice(..b.len() / 2);
                 let v: Vec<u8> = c2.into();
@@ -581,6 +593,9 @@ fn run_once(c: &FCase) -> FOut {
     });
     let panicked = r.is_err();
     let mut viol: Option<(String, String)> = None;
+    if range_viol.get() {
+        viol = Some(("view-outside-owner-memory".into(), "Bytes::from_owner returned a view that is not inside any slice the owner handed out (pointer of one as_ref call combined with the length of another)".into()));
+    }
     // fixed target guards
     if arena[..G].iter().any(|&x| x != 0xA5) || arena[G + 32..].iter().any(|&x| x != 0xA5) {
         viol = Some(("out-of-bounds-write-into-fixed-target".into(), "bytes outside the 32-byte target slice were modified".into()));
